@@ -66,7 +66,7 @@ def gen_history_case(rng, base):
     cwd = os.path.join(base, cwd_rel) if cwd_rel else base
     aliases = fstree.dir_aliases(base, entries0)
     subdirs = fstree.real_subdirs(base, entries0)
-    # --- roots (never nested: F-C09-NEST is the business of the `nested` stream)
+    # --- roots (never overlapping here: equal / nested / linked directories are the business of the `nested` stream)
     r = rng.random()
     if r < 0.6 or len(real_dirs) < 2:
         root_rels = ["t"]
